@@ -44,6 +44,9 @@ func drawC19(r *rng.R) *c19Case {
 	nTok := r.Intn(41)
 	if r.Chance(1, 6) {
 		nTok = r.Intn(4)
+	} else if r.Chance(1, 8) {
+		// token numbers above 255
+		nTok = 260 + r.Intn(60)
 	}
 	nModes := r.Intn(4)
 	if nTok < 2*nModes+1 {
@@ -226,7 +229,7 @@ func drawC19(r *rng.R) *c19Case {
 
 func checkC19(c *Ctx) error {
 	c.Ev = evidence.New("C19", c.Tier, c.Seed, "exploration",
-		"specifications with 0-40 tokens, 0-3 modes (plus a never-entered mode whose token is produced only through @emit), @external lines before, between and after tokens, spread over 1-3 files, with a parser that references a random subset of the tokens. Expected numbering: EOF=0, ERROR=1, then tokens and @external names in order of appearance over the files in lexical file order (mode members at the mode's position), dense. Observed: (a) the const block of base.gen.go read back from the file (names, values, order, nothing else); (b) the generated constants and _TokenToString called inside the compiled package for every constant and for -1, n, n+1, 2^30, MinInt32; (c) the token types the real state machine and driver produce for one sample input per token (accept parameters of the lexer tables); (d) the generated parser fed with each terminal by number: accepted iff the parser references that token (keys of the action rows). Non-trivial: specifications with at least 3 terminals besides EOF/ERROR; distinct by specification text.")
+		"specifications with 0-40 tokens (one in ten with 260-320, so that token numbers pass 255), 0-3 modes (plus a never-entered mode whose token is produced only through @emit), @external lines before, between and after tokens, spread over 1-3 files, with a parser that references a random subset of the tokens. Expected numbering: EOF=0, ERROR=1, then tokens and @external names in order of appearance over the files in lexical file order (mode members at the mode's position), dense. Observed: (a) the const block of base.gen.go read back from the file (names, values, order, nothing else); (b) the generated constants and _TokenToString called inside the compiled package for every constant and for -1, n, n+1, 2^30, MinInt32; (c) the token types the real state machine and driver produce for one sample input per token (accept parameters of the lexer tables); (d) the generated parser fed with each terminal by number: accepted iff the parser references that token (keys of the action rows). Non-trivial: specifications with at least 3 terminals besides EOF/ERROR; distinct by specification text.")
 	c.Ev.Assumptions = []string{
 		"'declaration order' = order of appearance over the .lox files sorted by file name, which is the order lox reads them in",
 		"@external names are not referenced from parser rules here",
